@@ -36,17 +36,17 @@ func init() {
 		Assumptions: commonAssumptions})
 	describe(&PropertyDoc{ID: "C03",
 		Explanation: "Structural necessary conditions of serialize-then-parse identity.",
-		Decides:     []string{"no default component set leaves unencoded a code point that would end, or be trimmed from, that component on re-parsing (TAB-closure)", "every setter path that nulls query or fragment strips an opaque path's trailing spaces when both are null (PAIR-strip)", "the IPv6 serializer omits exactly the first longest run of two or more zero pieces and prints every other piece (TAB-ipv6ser)"},
+		Decides:     []string{"no default component set leaves unencoded a code point that would end, or be trimmed from, that component on re-parsing (TAB-closure)", "every setter path that nulls query or fragment strips an opaque path's trailing spaces when both are null (PAIR-strip)", "the IPv6 serializer omits exactly the first longest run of two or more zero pieces and prints every other piece (TAB-ipv6ser)", "derived state added to the URL record (a cached serialization) is rewritten or cleared wherever a component it was computed from is written (PAIR-cache)"},
 		NotDecided:  []string{"the round trip itself: the IPv4 serializer and the host parser as inverses, the '/.' guard, IDNA (http://a≠b/), setter histories"},
 		Assumptions: commonAssumptions})
 	describe(&PropertyDoc{ID: "C04",
 		Explanation: "Structural necessary conditions of the URL-record invariants in every reachable state.",
-		Decides:     []string{"default-port elision follows every store of a new port and every scheme change under an override (PAIR-port)", "the 'cannot have credentials/port' and opaque-path guards are shared by sibling setters (PAIR-guards)", "component sets and forbidden sets are at least the standard's (TAB-super, TAB-forbidden ⊇), default ports are the standard's (TAB-schemes)", "the package-level default scheme table is read only by the options initialiser: default-port elision uses the parser's own table (OPT-schemetable)"},
+		Decides:     []string{"default-port elision follows every store of a new port and every scheme change under an override (PAIR-port)", "the 'cannot have credentials/port' and opaque-path guards are shared by sibling setters (PAIR-guards)", "component sets and forbidden sets are at least the standard's (TAB-super, TAB-forbidden ⊇), default ports are the standard's (TAB-schemes)", "the package-level default scheme table is read only by the options initialiser: default-port elision uses the parser's own table (OPT-schemetable)", "the default-port elision decides on the port itself, or on the cached number only while every writer keeps it in step (PAIR-port decides-on); derived state follows its sources (PAIR-cache)"},
 		NotDecided:  []string{"getter-composition identities", "value-level invariants (scheme grammar, ASCII-only serialisation)"},
 		Assumptions: commonAssumptions})
 	describe(&PropertyDoc{ID: "C05",
 		Explanation: "Setter footprints and guards, for every URL state and every value.",
-		Decides:     []string{"the components each setter's state-override run can change are exactly the standard's, and only the setter's states run (SM-footprint)", "host and port are committed only after their validation (SM-commit)", "sibling setters share their applicability guard (PAIR-guards)", "credentials are encoded with the userinfo set (TAB-component)", "an opaque path is rewritten in place only by strings.TrimRight(segment, space) of that very segment: trailing U+0020 and nothing else (TAB-strip)"},
+		Decides:     []string{"the components each setter's state-override run can change are exactly the standard's, and only the setter's states run (SM-footprint)", "host and port are committed only after their validation (SM-commit)", "sibling setters share their applicability guard (PAIR-guards)", "credentials are encoded with the userinfo set (TAB-component)", "an opaque path is rewritten in place only by strings.TrimRight(segment, space) of that very segment: trailing U+0020 and nothing else (TAB-strip)", "the trailing spaces of an opaque path are stripped only where query and fragment are both null (PAIR-strip, converse clause)"},
 		NotDecided:  []string{"the resulting values", "sequence-specific value behaviour (the facts hold in every URL state)"},
 		Assumptions: append([]string{"/verif/spec/setters.json transcribes the API setters of the standard"}, commonAssumptions...)})
 	describe(&PropertyDoc{ID: "C06",
@@ -66,22 +66,22 @@ func init() {
 		Assumptions: append([]string{"TAB-ipv6place: at the end of the reading loop the pieces from index pieceIdx on are still zero and 0 ≤ pieceIdx ≤ 8 (reviewed; the rule itself checks that compress is only ever set to the piece count or the one 'none' constant)"}, commonAssumptions...)})
 	describe(&PropertyDoc{ID: "C09",
 		Explanation: "Order and coverage of the domain pipeline.",
-		Decides:     []string{"percent-decoding precedes ToASCII; the forbidden-domain scan runs over the ToASCII result on every non-lax success path and before the IPv4 test (FLOW-hostpipe)", "the forbidden-domain set is at least the standard's (TAB-forbidden)", "every IDNA conversion goes through the module's lookup profile built with MapForLookup, and the wrapper's successes behind the conversion return what it produced  (FLOW-idna)", "the post-parse host hook is handed the ToASCII result and the pre-parse hook the host text as it came in (FLOW-hostpipe)"},
+		Decides:     []string{"percent-decoding precedes ToASCII; the forbidden-domain scan runs over the ToASCII result on every non-lax success path and before the IPv4 test (FLOW-hostpipe)", "the forbidden-domain set is at least the standard's (TAB-forbidden)", "every IDNA conversion goes through the module's lookup profile built with MapForLookup, and the wrapper's successes behind the conversion return what it produced  (FLOW-idna)", "the post-parse host hook is handed the ToASCII result and the pre-parse hook the host text as it came in (FLOW-hostpipe)", "the percent-decoder in front of ToASCII hands its whole text to no library function that rewrites text outside escapes (FLOW-decodeprov)"},
 		NotDecided:  []string{"UTS #46 behaviour, case independence, the localhost rule"},
 		Assumptions: commonAssumptions})
 	describe(&PropertyDoc{ID: "C10",
 		Explanation: "Set-level clauses decided completely; string-level codec laws are not.",
-		Decides:     []string{"membership of the six named sets for all 0x110000 code points equals the standard's; byte and rune predicates agree (TAB-sets)", "default option sets are the standard's (TAB-defaults)", "deriving a set returns a fresh set and never writes its parent (EFF-derive, TAB-ctor)", "named sets and bitsets are never written after initialisation (EFF-globals)", "escapes use upper-case hex in every function that writes a '%' (TAB-hex)", "a decoder consumes as hex digits of an escape only positions a dominating hex-digit test covered (FLOW-hexpair)", "every decision 'a well-formed escape starts here' separates exactly 'three or more elements remain and both are hex digits' from everything else (FLOW-escvalid)", "the rune copy of a string is never indexed by a byte offset of that string (FLOW-units)", "in every encoder nothing reaches the result unencoded except under the set's own answer for that value; sub-encoders get the same set or a Set()-superset (FLOW-encgate)"},
+		Decides:     []string{"membership of the six named sets for all 0x110000 code points equals the standard's; byte and rune predicates agree (TAB-sets)", "default option sets are the standard's (TAB-defaults)", "deriving a set returns a fresh set and never writes its parent (EFF-derive, TAB-ctor)", "named sets and bitsets are never written after initialisation (EFF-globals)", "escapes use upper-case hex in every function that writes a '%' (TAB-hex)", "a decoder consumes as hex digits of an escape only positions a dominating hex-digit test covered (FLOW-hexpair)", "every decision 'a well-formed escape starts here' separates exactly 'three or more elements remain and both are hex digits' from everything else (FLOW-escvalid)", "the rune copy of a string is never indexed by a byte offset of that string (FLOW-units)", "in every encoder nothing reaches the result unencoded except under the set's own answer for that value; sub-encoders get the same set or a Set()-superset (FLOW-encgate)", "a percent-decoder hands its whole text only to a pure percent-decoder or to functions returning it or pieces of it (FLOW-decodeprov)"},
 		NotDecided:  []string{"string-level laws (idempotence, decode∘encode) beyond the encoder gating on the set predicate"},
 		Assumptions: commonAssumptions})
 	describe(&PropertyDoc{ID: "C11",
 		Explanation: "Structural facts of the form-urlencoded codec and of sorting.",
-		Decides:     []string{"'+' is translated before percent-decoding, for name and value (FLOW-urlenc)", "pairs split on '&', name/value at the first '=' (TAB-urlsplit)", "the serializer's escape set must contain & = + % (TAB-urlenc: known finding)", "sorting is stable and compares what the standard compares (OPT-sortcmp)", "on the serialiser's path names and values are read as code points: a byte read by index is only compared unless known to be ASCII or the string passed utf8.ValidString (FLOW-utf8)"},
+		Decides:     []string{"'+' is translated before percent-decoding, for name and value (FLOW-urlenc)", "pairs split on '&', name/value at the first '=' (TAB-urlsplit)", "the serializer's escape set must contain & = + % (TAB-urlenc: known finding)", "sorting is stable and compares what the standard compares (OPT-sortcmp)", "on the serialiser's path names and values are read as code points: a byte read by index is only compared unless known to be ASCII or the string passed utf8.ValidString (FLOW-utf8)", "the decoder behind the '+' translation rewrites nothing outside escapes (FLOW-decodeprov)"},
 		NotDecided:  []string{"list semantics of append/delete/set/get", "UTF-8 replacement"},
 		Assumptions: commonAssumptions})
 	describe(&PropertyDoc{ID: "C12",
 		Explanation: "Coherence facts that hold per call, hence under every interleaving.",
-		Decides:     []string{"every list mutator writes through after its last write (PAIR-update); update() stores the list's own serialization, and reaches the store whenever a URL is attached and the serialization is non-empty or the URL has a query", "functions outside the list's methods that replace the pairs of an attached list end with update() or set that URL's query themselves (PAIR-update)", "the search setter empties / re-initialises the existing list object in place; list objects of existing URLs are never replaced (PAIR-handle)", "a list stored into a URL writes through to that URL and no other (EFF-backptr)"},
+		Decides:     []string{"every list mutator writes through after its last write (PAIR-update); update() stores the list's own serialization, and reaches the store whenever a URL is attached and the serialization is non-empty or the URL has a query", "functions outside the list's methods that replace the pairs of an attached list end with update() or set that URL's query themselves (PAIR-update)", "the search setter empties / re-initialises the existing list object in place; list objects of existing URLs are never replaced (PAIR-handle)", "a list stored into a URL writes through to that URL and no other (EFF-backptr)", "a field added to the list that caches something computed from the pairs is rewritten or cleared wherever the pairs are written (PAIR-cache)"},
 		NotDecided:  []string{"that update()/init() compute the right strings (C11)"},
 		Assumptions: commonAssumptions})
 	describe(&PropertyDoc{ID: "C13",
@@ -106,7 +106,7 @@ func init() {
 		Assumptions: commonAssumptions})
 	describe(&PropertyDoc{ID: "C18",
 		Explanation: "Presence, on every path, of the mechanism that normalises each listed spelling variation.",
-		Decides:     []string{"with repeated decoding on, hostname, pathname, every pair name and value, and fragment are replaced by encode(decode-until-unchanged(·)) under benign guards only (FLOW-canon)", "dot-segment literals incl. %2e forms; tab/newline/whitespace sets (TAB-dots, TAB-ws)", "default-port elision (PAIR-port)", "fragment removal is the unconditional setter call under exactly its flag: an empty fragment goes too (OPT-canon)", "the repeated decoder consumes only tested hex positions, its notion of a well-formed escape and its digit values are exact (FLOW-hexpair, FLOW-escvalid, TAB-hexval)"},
+		Decides:     []string{"with repeated decoding on, hostname, pathname, every pair name and value, and fragment are replaced by encode(decode-until-unchanged(·)) under benign guards only (FLOW-canon)", "dot-segment literals incl. %2e forms; tab/newline/whitespace sets (TAB-dots, TAB-ws)", "default-port elision (PAIR-port)", "fragment removal is the unconditional setter call under exactly its flag: an empty fragment goes too (OPT-canon)", "the repeated decoder consumes only tested hex positions, its notion of a well-formed escape and its digit values are exact (FLOW-hexpair, FLOW-escvalid, TAB-hexval)", "the repeated decoder rewrites nothing outside escapes (FLOW-decodeprov)"},
 		NotDecided:  []string{"that two concrete spellings produce the same string"},
 		Assumptions: commonAssumptions})
 	describe(&PropertyDoc{ID: "C19",
